@@ -30,6 +30,15 @@ CLAIMED = {
  "C05": ("exploration", "exhaustive enumeration of a path menu x dash arrays x offsets against an independent model of the dash pattern and dense arc-length location of every returned piece",
          "All paths of the menu (every segment type, all two-segment combinations in thorough, closed and multi-subpath paths) x all dash arrays of length 0-3 over {0,1,2.5} plus repeated patterns x 7 offsets (negative, beyond the period) are dashed by the real code; every returned piece is located on the input by arc length on the oracle's dense polyline and compared with the intervals an independent 15-line pattern model prescribes (on the path, in path order, interval ends, drawn length, joined piece on closed subpaths, degenerate patterns); the caller's slice must be unchanged.",
          "trusted: internal/oracle/dash.go; tolerance 1e-9 relative on straight segments, max(1 %, 1e-3) per curved segment; one known finding keyed by the predicate 'path contains the exact-cusp cubic'", "DESIGN.md §3 C05"),
+ "C07": ("exploration", "exhaustive enumeration of a segment menu x all matrix words of length <= 2 (3) over 15 generators, and of all ordered pairs of matrix words for the algebraic laws",
+         "Every segment type (incl. arcs with all flag pairs and rotations) and two-segment path is transformed by every generator word through the real Path.Transform; the image under the independently composed matrix of the dense input samples must coincide (in order) with the dense samples of the output, arcs must stay canonical arcs whose radii fit the chord; Mul/Dot/Inv/T/Det/Decompose/ToSVG/Rect.Transform are checked against an independent 2x3 affine algebra written from the doc comments on all ordered pairs of words.",
+         "trusted: internal/oracle (Aff algebra, dense evaluation); words with condition number > 1e4 are skipped for Transform and counted; two known findings (ToSVG without translation ignores the height: pinned by the repository's tests; arcs under the 1000:1 scale)", "DESIGN.md §3 C07"),
+ "C08": ("exploration", "exhaustive enumeration of all lattice quadratics/cubics/arcs and two-subpath paths against exact extrema",
+         "All 2401 quadratics, 15625 cubics and 7680 canonical arcs (incl. ellipse rotations 0/15/45/90/135) and two-subpath paths: Bounds must contain every dense sample and touch the true extreme on each side (extrema from the oracle's own closed forms), FastBounds must contain Bounds, both equivariant under integer translation and axis reflections applied to the raw data.",
+         "trusted: internal/oracle/curves.go (B'(t)=0 roots, ellipse extreme angles); tolerances 1e-9 containment, 1e-6*scale tightness", "DESIGN.md §3 C08"),
+ "C09": ("exploration", "exhaustive enumeration of a path menu x all split sets of size <= 2 (3) over a menu of arc-length positions",
+         "All paths of the menu (every segment type, two-segment combinations, closed, multi-subpath) x all subsets of split positions {0, L/4, L/2, 3L/4, L, vertex arc lengths, vertex +- 1e-3}: Length within 1 % of the dense arc length, pieces consecutive and geometrically the input, lengths summing to Length, cuts at the requested arc lengths; Reverse an involution preserving length/bounds/closedness and negating the winding at all decidable probes.",
+         "trusted: internal/oracle dense arc length; cut tolerance 1e-9*L on straight prefixes, max(1 % of curved length, 1e-3) after curved segments; two known findings (exact-cusp cubic, long eccentric arc)", "DESIGN.md §3 C09"),
 }
 CUSTOM_CMD = {"C20": ("scripts/check_c20.sh quick", "scripts/check_c20.sh thorough")}
 REASON_PENDING = "check not built yet in this session (planned in DESIGN.md §9); not claimed until it exists and is green"
